@@ -861,7 +861,18 @@ fn sessions_scenario(rng: &mut Rng) -> Vec<Session> {
     sc!("biggap", true, [with_loc("assembly", lab("far_", 0), rng), with_loc("assembly", lab("far_", 1), rng), with_loc("assembly", lab("tail_", -1), rng),
                          with_loc("print", lab("tail_", 0), rng), with_loc("goto", lab("far_", 0), rng), simple("registers", rng), with_loc("breakadd", lab("tail_", 0), rng),
                          simple("breaklist", rng), mov(lab("far_", 1), 7, rng), with_loc("print", lab("far_", 1), rng), simple("exit", rng)]);
+    // a store OUTSIDE [origin, xFE00) (below the origin; in the device page), after which the user puts registers and PC back by hand: when `reset` comes,
+    // everything a quick look compares (PC, registers, CC, the image's own words) equals the load state - and the stored word must still go back
+    sc!("stlow", true, [mov(Loc::Reg(0), 0x1234, rng), simple("step", rng), mov(Loc::Reg(0), 0, rng), with_loc("goto", Loc::Addr(0x3000), rng), simple("reset", rng),
+                        with_loc("print", Loc::Addr(0x2FF7), rng), simple("registers", rng), simple("continue", rng), with_loc("print", Loc::Addr(0x2FF7), rng), simple("exit", rng)]);
+    sc!("sthigh", true, [mov(Loc::Reg(1), 0x1234, rng), simple("step", rng), mov(Loc::Reg(1), 0, rng), with_loc("goto", Loc::Addr(0x3000), rng), simple("reset", rng),
+                         with_loc("print", Loc::Addr(0xFE06), rng), simple("registers", rng), simple("continue", rng), with_loc("print", Loc::Addr(0xFE06), rng), simple("exit", rng)]);
+    sc!("sthigh", true, [mov(Loc::Reg(1), 0x1234, rng), simple("continue", rng), simple("reset", rng), with_loc("print", Loc::Addr(0xFE06), rng), simple("reset", rng),
+                         simple("continue", rng), with_loc("print", Loc::Addr(0xFE06), rng), simple("exit", rng)]);
+    sc!("stlow", true, [mov(Loc::Reg(0), 0x4321, rng), simple("continue", rng), simple("reset", rng), with_loc("print", Loc::Addr(0x2FF7), rng), simple("exit", rng)]);
     let mut cat = catalogue();
+    cat.push(p("stlow", false, b"", vec![pc_lit("st", 0, -10), halt()]));
+    cat.push(p("sthigh", false, b"", vec![pc_lab("sti", 1, "ptr_"), halt(), fill(0xFE06).lab("ptr_")]));
     cat.push(p("biggap", false, b"", vec![halt().lab("start_"), blkw(33000), add_i(1, 1, 1).lab("far_"), add_i(2, 2, 2), halt().lab("tail_")]));
     cat.push(p("fargap", true, b"", vec![add_i(0, 0, 1).lab("start_"), halt(), blkw(198), add_i(1, 1, 1).lab("near200"), blkw(299), add_i(2, 2, 1).lab("near500"), blkw(99),
                                         add_i(3, 3, 1).lab("far600"), blkw(499), add_i(4, 4, 1).lab("far1100"), plain("rets")]));
